@@ -305,7 +305,8 @@ def run(ctx):
     ie_idx = iter_elem(W, idx_a) if idx_a else None
     ie_nonce = iter_elem(W, nonce_a) if nonce_a else None
     okidx = ie_idx is not None and ie_idx["what"] == "index" and ie_idx["container"] == ("field", selfp, "requests")
-    okn = ie_nonce is not None and ie_nonce["what"] == "elem" and ie_nonce["fields"] == ("0",) and ie_nonce["container"] == ("field", selfp, "requests")
+    QR = sm.queue_roles(ctx, W)
+    okn = ie_nonce is not None and ie_nonce["what"] == "elem" and ie_nonce["fields"] == (QR["nonce"],) and ie_nonce["container"] == ("field", selfp, "requests")
     same = okidx and okn and ie_idx["site"] == ie_nonce["site"]
     ctx.check("response-assembly", "send_responses/index-and-nonce-from-one-element", same,
               "idx and nonce come from the same requests.iter().enumerate().next() element",
@@ -323,7 +324,7 @@ def run(ctx):
     for sb in sends:
         sargs = [W.expand(a) for a in sev.call_args(sb)]
         ie = iter_elem(W, sargs[2])
-        okd = ie is not None and ie["what"] == "elem" and ie["fields"] == ("1",) and ie_nonce is not None and ie["site"] == ie_nonce["site"]
+        okd = ie is not None and ie["what"] == "elem" and ie["fields"] == (QR["addr"],) and ie_nonce is not None and ie["site"] == ie_nonce["site"]
         ctx.check("response-assembly", "send_responses/destination-from-same-element", okd, "destination = address of the same queued request",
                   "send_to destination %s is not the address stored with this request" % fmt(sargs[2]), sr.loc(sb))
     ctx.floor("response-assembly", len(sends), 1, "send_to call sites in send_responses")
